@@ -88,6 +88,14 @@ CLAIMED = {
         "byte equality is the harness's comparison of concretised bodies; which pages/versions must be present is the model's; 'Main:' stripping is a listed finding.",
         "DESIGN.md §5 C12, notes/C12.md",
     ),
+    "C08": (
+        ["Gen_LuaFrame", "Transclusion", "ArgViews"],
+        "TLA+ statement of the frame API in terms of the transclusion reference Eval (frame.args = Bind in the caller's frame, parent frame, preprocess/expandTemplate/callParserFunction = Expand of the equivalent wikitext), "
+        "evaluated by TLC for every case; generated Lua echo modules run through the real #invoke directly and via one/two wrapper templates; every observed field compared with TLC's value and with the real expansion of the equivalent wikitext",
+        "Bounded-exhaustive over argument values (incl. nested calls, padding, newlines) x wrapper depth 0..2 x fragments x Lua strings (1.6k quick, 10k thorough) with two oracles (specification and metamorphic).",
+        "Lua through offline stand-ins; expandTemplate's equivalent call is the all-named form; callParserFunction gets plain strings.",
+        "DESIGN.md §5 C08",
+    ),
 }
 NOT_YET = "check not built yet in this round (see DESIGN.md §10 build order); nothing is claimed for it"
 
